@@ -2921,6 +2921,8 @@ impl LineBuf {
 				let Some(end_line_no) = self.eval_line_addr(end_addr) else {
 					return MotionKind::Null
 				};
+				// A backwards range is swapped, as Vim does after asking
+				let (start_line_no, end_line_no) = ordered(start_line_no, end_line_no);
 				MotionKind::LineRange(start_line_no, end_line_no)
 			}
 			MotionCmd(_,Motion::RepeatMotion) | // These two were already handled in exec.rs
